@@ -23,7 +23,10 @@ func Ports(svc *v1.Service) []allocator.Port {
 // BackendKey extracts the backend key for a service.
 func BackendKey(svc *v1.Service) string {
 	if svc.Spec.ExternalTrafficPolicy == v1.ServiceExternalTrafficPolicyTypeLocal {
-		return labels.Set(svc.Spec.Selector).String()
+		// The key of a Local service must never be empty: the empty key means
+		// "any backend" (Cluster policy), and a Local service without selector
+		// would otherwise be allowed to share with any Cluster service.
+		return "local:" + labels.Set(svc.Spec.Selector).String()
 	}
 	// Cluster traffic policy can share services regardless of backends.
 	return ""
